@@ -961,11 +961,14 @@ class MBXML:
             (doc_id, idx) = cls.read_uintvar(data, idx)
             doctype = MBXMLDocumentIdentifier.resolve(docid=doc_id)
             (doc_len_bytes, idx) = cls.read_uintvar(data, idx)
-            rtn.append(
-                cls.read_document(
-                    doctype=doctype, data=data, idx=idx, previous_doc=last_doc
-                )
+            # document ends where its length says, not at the end of the buffer
+            last_doc = cls.read_document(
+                doctype=doctype,
+                data=data[: idx + doc_len_bytes],
+                idx=idx,
+                previous_doc=last_doc,
             )
+            rtn.append(last_doc)
             idx += doc_len_bytes
             if idx == data_len:
                 # no more documents in data
